@@ -316,7 +316,23 @@ class Executor:
             out.append(Res("val", v, r.st))
         return out
 
+    def _pure_boolop(self, e, st):
+        """Non-forking evaluation of `a and b and ...` / `or` for side-effect-free boolean operands (pure mode)."""
+        is_and = isinstance(e.op, ast.And)
+        zs = []
+        for v in e.values:
+            rs = self.eval(v, st)
+            if len(rs) != 1 or rs[0].kind != "val" or rs[0].st is not st:
+                raise Unsupported("impure operand in a pure boolean expression")
+            t = self.truthy(rs[0].val, st)
+            if not isinstance(rs[0].val, (bool, VBool)):
+                raise Unsupported("impure / non-boolean operand in a pure boolean expression")
+            zs.append(z3.BoolVal(t) if isinstance(t, bool) else t)
+        return [Res("val", lift_bool(z3.And(*zs) if is_and else z3.Or(*zs)), st)]
+
     def e_BoolOp(self, e, st):
+        if getattr(self, "pure_mode", False):
+            return self._pure_boolop(e, st)
         is_and = isinstance(e.op, ast.And)
         # pure boolean fast path: no calls inside -> no forking needed when all operands are bools
         results: list[Res] = []
@@ -454,6 +470,11 @@ class Executor:
             getter = self.vocab.getters.get(attr)
             if getter is not None and not self.vocab.has(attr):
                 return self.eval_with_self(getter, base, st)
+            hook = self.spec.globals.get("__getattr__")
+            if hook is not None and not self.vocab.has(attr):
+                hv = hook(self, st, base, attr)
+                if hv is not None:
+                    return [Res("val", hv, st)]
             if self.vocab.has(attr):
                 if isinstance(z3.simplify(base.z), z3.IntNumRef) and z3.simplify(base.z).as_long() == 0:
                     return [Res("raise", "AttributeError", st)]
